@@ -634,7 +634,8 @@ def save_cog_with_dask(
     ydim = xx_odc.ydim
     data_chunks: Tuple[int, int] = xx.data.chunksize[ydim : ydim + 2]
     if isinstance(blocksize, Unset):
-        blocksize = [data_chunks, int(max(*data_chunks) // 2)]
+        # one-pixel chunks would ask for a 0-pixel overview tile
+        blocksize = [data_chunks, max(1, int(max(*data_chunks) // 2))]
 
     gdal_metadata = None if stats is False else ""
 
